@@ -3,7 +3,7 @@
 c08_faults.py decides the containment half against every behaviour a parser may have within its contract.  The other half of
 the statement - "for any docstring text ... always succeeds" through the real regex/docutils parsers - cannot be put to a
 solver.  What is decided here, as bounded-exhaustive exploration (class E), is a structure-aware generator of TROUBLESOME
-docstrings: a docstring is a sequence of up to 2 (3) fragments from a menu of 26 fragments that are malformed, borderline or
+docstrings: a docstring is a sequence of up to 2 (3) fragments from a menu of 28 fragments that are malformed, borderline or
 foreign in at least one docformat (unbalanced inline markup, unknown tags/roles/directives, broken indentation, headings whose
 title has no ASCII letters, malformed fields and sections, undefined substitutions and footnotes, broken tables, ...), attached
 to a function (a neighbour function has a healthy docstring), under each docformat, with and without type processing.  The real
@@ -61,6 +61,8 @@ FRAGMENTS = [
     ("google_section_unindented", ["Args:", "markxa not indented: markxb", "", "Returns:", "", "markxc"]),
     ("numpy_section_short", ["Parameters", "---", "markya : int", "    markyb text", "", "Raises", "------", "", "markyc"]),
     ("html_and_entities", ["markza <b>markzb</b> &amp; &nosuch; &#0; markzc."]),
+    ("field_indented_then_dedented", ["  @note: markxd indented note", "@note: markxe dedented note"]),
+    ("non_breaking_space", ["markxf non\u00a0breaking markxg."]),
 ]
 NF = len(FRAGMENTS)
 MARK = re.compile(r"mark[a-z]{2}")
@@ -83,7 +85,7 @@ def module_source(doc):
 _NEIGHBOUR = {}
 
 
-def render_all(fmt, doc, processtypes):
+def render_all(fmt, doc, processtypes, summary_first=False):
     src, lo, hi = module_source(doc)
     opts = copy.copy(PJ.OPTS)
     opts.docformat = fmt
@@ -91,24 +93,29 @@ def render_all(fmt, doc, processtypes):
     s = PJ.build({"m": (src, False)}, opts=opts)
     f, g = s.allobjects["m.f"], s.allobjects["m.g"]
     out = {}
-    # each of the three is produced once per object, as the page writer does (field problems are reported at formatting time)
+    # each of the three is produced once per object, as the page writer does (field problems are reported at formatting time);
+    # a run produces the summary (index pages) before the body, a single page the other way round
+    if summary_first:
+        out["summary"] = flatten(epydoc2stan.format_summary(f))
     stan = epydoc2stan.format_docstring(f)
     out["doc"] = flatten(stan)
     out["text"] = flatten_text(stan)
-    out["summary"] = flatten(epydoc2stan.format_summary(f))
+    if not summary_first:
+        out["summary"] = flatten(epydoc2stan.format_summary(f))
     toc = epydoc2stan.format_toc(f)
     out["toc"] = flatten(toc) if toc is not None else ""
     out["gdoc"] = flatten(epydoc2stan.format_docstring(g))
     out["gsum"] = flatten(epydoc2stan.format_summary(g))
+    out["parsed_as"] = type(f.parsed_docstring).__name__
     return s, out, lo, hi
 
 
-def check_real(fmt, kinds, processtypes):
+def check_real(fmt, kinds, processtypes, summary_first=False):
     doc = make(kinds)
-    ctx = dict(docformat=fmt, fragments=[FRAGMENTS[k][0] for k in kinds], processtypes=processtypes, docstring=doc)
+    ctx = dict(docformat=fmt, fragments=[FRAGMENTS[k][0] for k in kinds], processtypes=processtypes, summary_first=summary_first, docstring=doc)
     sample(**ctx)
     try:
-        s, out, lo, hi = render_all(fmt, doc, processtypes)
+        s, out, lo, hi = render_all(fmt, doc, processtypes, summary_first)
     except Exception as e:
         import traceback
         note(why="an exception leaves format_docstring / format_summary / format_toc", exc=repr(e), where=traceback.format_exc().splitlines()[-6:], **ctx)
@@ -145,7 +152,9 @@ def check_real(fmt, kinds, processtypes):
     if missing and not reported:
         note(why="text of the docstring is lost and nothing was reported", missing=missing, visible=text[:400], **ctx)
         return False
-    gave_up = fmt == "plaintext" or (fmt == "epytext" and reported and any("bad docstring" in t for t in texts))
+    # the parser gave up on the docstring as a whole: the object's parsed docstring is the plain-text one (a failure inside one
+    # field's body is reported too, but concerns that field only)
+    gave_up = fmt == "plaintext" or (fmt == "epytext" and reported and out["parsed_as"] == "ParsedPlaintextDocstring")
     if fmt == "epytext" and reported and not missing:
         pass
     if gave_up:
@@ -176,10 +185,10 @@ MAXF = tier(2, 3)
     parts=lambda: [[f, k] for f in range(5) for k in range(NF)], timeout=(300, 2400), cls="E", tracing="concrete-after-choice", twin="first",
     code=["pydoctor.epydoc.markup.epytext (parse, _tokenize*, _add_*, ParsedEpytextDocstring.to_node/get_toc)", "pydoctor.epydoc.markup.restructuredtext (parse_docstring, _EpydocReader, _SplitFieldsTranslator)",
           "pydoctor.epydoc.markup._napoleon / pydoctor.napoleon.docstring", "pydoctor.epydoc.markup.plaintext", "pydoctor.epydoc.docutils.build_table_of_content", "pydoctor.node2stan", "pydoctor.epydoc2stan (wrappers, FieldHandler, reportErrors)"],
-    bounds={"quick": "docstrings of 1..2 fragments from a menu of 26 troublesome fragments, 5 docformats, type processing on/off (7 020 docstrings)", "thorough": "1..3 fragments (182 780 docstrings)"},
+    bounds={"quick": "docstrings of 1..2 fragments from a menu of 28 troublesome fragments, 5 docformats, type processing on/off, summary produced before or after the body (16 240 renderings)", "thorough": "1..3 fragments (455 000 renderings)"},
     outside="texts outside the generator; hangs; objects other than a function",
 )
-def h_real_parsers(k2: int, k3: int, pt: bool) -> bool:
+def h_real_parsers(k2: int, k3: int, pt: bool, sf: bool) -> bool:
     """
     pre: -1 <= k2 < NF and -1 <= k3 < NF
     pre: k2 >= 0 or k3 == -1
@@ -192,7 +201,7 @@ def h_real_parsers(k2: int, k3: int, pt: bool) -> bool:
     pt = pickb(pt)
     kinds = [k for k in (k1, k2, k3) if k >= 0]
     with NoTracing():
-        ok = check_real(FORMATS[fi], kinds, pt)
+        ok = check_real(FORMATS[fi], kinds, pt, pickb(sf))
     return done(ok)
 
 
